@@ -183,7 +183,9 @@ Definition init (c : cfg) : listener :=
    can see it.  elem: Some s = a python str, None = any other value *)
 Definition elem := option str.
 Inductive parse :=
-| PBad                                   (* json.JSONDecodeError (a ValueError) *)
+| PBad                                   (* json.JSONDecodeError or another ValueError (e.g. the int digit limit) *)
+| PRaise                                 (* json.loads raised something that is not a ValueError: RecursionError for
+                                            text nested deeper than the interpreter allows *)
 | PScalar                                (* None, bool, int, float *)
 | PStr (s : str)
 | PArr (es : list elem)
@@ -209,16 +211,22 @@ Fixpoint lookup (k : str) (ms : list (str * elem)) : option elem :=
   | (k', v) :: r => if str_eqb k k' then Some v else lookup k r
   end.
 
-Inductive verdict := VIgnore | VAnswer.
+Inductive verdict := VIgnore | VAnswer | VKill.
 
-(* body of the while loop after recvfrom returned data.  Nothing in it can raise: UnicodeDecodeError and
-   JSONDecodeError are ValueErrors and caught, isinstance and dict.get are total *)
+(* the datagram as run() sees it: recvfrom(n) hands over at most n bytes, the kernel drops the rest *)
+Definition recv_size : nat := N.to_nat recv_bufsize.
+Definition received (data : bytes) : bytes := firstn recv_size data.
+
+(* body of the while loop after recvfrom returned data.  UnicodeDecodeError and JSONDecodeError are ValueErrors and
+   caught, isinstance and dict.get are total; an exception of json.loads that is not a ValueError (PRaise) is caught
+   by nothing and leaves run() *)
 Definition handle (data : bytes) (p : parse) : verdict :=
-  match utf8_decode (firstn recv_bufsize data) with
+  match utf8_decode (received data) with
   | None => VIgnore                                   (* except ValueError: continue *)
   | Some _ =>
     match p with
     | PBad => VIgnore                                 (* except ValueError: continue *)
+    | PRaise => VKill                                 (* not caught *)
     | PScalar | PStr _ | PArr _ => VIgnore            (* not isinstance(request, dict) *)
     | PObj ms => match lookup K_SECoP ms with
                  | None => VIgnore                    (* None != 'discover' *)
@@ -227,7 +235,8 @@ Definition handle (data : bytes) (p : parse) : verdict :=
     end
   end.
 
-Inductive status := Listening | Returned | NotListening.
+(* Killed: an exception left run(), the thread is gone *)
+Inductive status := Listening | Returned | NotListening | Killed.
 Inductive dest := DBroadcast (port : N) | DAddr (a : nat).
 
 Record lstate := {
@@ -251,6 +260,7 @@ Definition lstep (l : listener) (s : lstate) (i : input) : lstate :=
       match handle data p with
       | VIgnore => {| st := Listening; outs := outs s; consumed := S (consumed s) |}
       | VAnswer => {| st := Listening; outs := outs s ++ answers l (DAddr a); consumed := S (consumed s) |}
+      | VKill => {| st := Killed; outs := outs s; consumed := S (consumed s) |}
       end
     end
   | _ => s
@@ -263,3 +273,68 @@ Definition start (l : listener) : lstate :=
      consumed := 0 |}.
 
 Definition run (l : listener) (ins : list input) : lstate := fold_left (lstep l) ins (start l).
+
+(* ------------------------------------------------------------------ what CPython's json.loads may do *)
+(* The only exception of json.loads(str) that is not a ValueError is RecursionError, and the scanner raises it only
+   when it stands inside at least json_depth_limit unclosed arrays/objects.  Every level needs its own opening
+   bracket, so the number of bracket characters of the text bounds the depth.  The limit is measured on the
+   interpreter that runs frappy (Gen constant json_depth_limit); every datagram of every generated case is checked
+   against this law (Run.v), the theorems assume it. *)
+Definition is_opener (b : N) : bool := (b =? 91) || (b =? 123).      (* the characters [ and { *)
+Definition openers (bs : bytes) : nat := List.length (filter is_opener bs).
+
+Definition loads_law_b (limit : nat) (text : bytes) (p : parse) : bool :=
+  match p with PRaise => (limit <=? openers text)%nat | _ => true end.
+
+(* ------------------------------------------------------------------ Server.run: start-up of the interfaces *)
+(* a configured interface: Some scheme = <scheme>://<number>, None = a bare number *)
+Definition cfg_iface : Type := option str * N.
+
+(* [iface if '://' in iface else f'tcp://{iface}' for iface in interfaces] *)
+Definition normalise (i : cfg_iface) : str * N :=
+  (match fst i with Some s => s | None => s2l "tcp" end, snd i).
+
+Definition iface_eqb (a b : str * N) : bool := str_eqb (fst a) (fst b) && (snd a =? snd b).
+
+(* d[k] = v on the key list of a dict (insertion order; an existing key keeps its place) *)
+Fixpoint dict_add (k : str * N) (d : list (str * N)) : list (str * N) :=
+  match d with
+  | [] => [k]
+  | x :: r => if iface_eqb k x then d else x :: dict_add k r
+  end.
+
+(* list.remove: the first occurrence *)
+Fixpoint remove_first (k : str * N) (l : list (str * N)) : list (str * N) :=
+  match l with
+  | [] => []
+  | x :: r => if iface_eqb k x then r else x :: remove_first k r
+  end.
+
+Record sstate := {
+  s_opened : list (str * N);     (* keys of self.interfaces *)
+  s_failed : list (str * N);     (* keys of the dict failed *)
+  s_list : list (str * N);       (* the local list interfaces *)
+}.
+
+(* what an interface thread does before the server goes on: (i, true) = thread i constructed its interface and
+   registered it (self.interfaces[iface] = interface, then the trigger); (i, false) = the constructor raised
+   (failed[iface] = e, interfaces.remove(iface), then the trigger).  A thread without an event is still inside its
+   constructor when the start-up time-out expires. *)
+Definition ev_step (conf : list (str * N)) (s : sstate) (e : nat * bool) : sstate :=
+  match nth_error conf (fst e) with
+  | None => s
+  | Some u =>
+    if snd e then {| s_opened := dict_add u (s_opened s); s_failed := s_failed s; s_list := s_list s |}
+    else {| s_opened := s_opened s; s_failed := dict_add u (s_failed s); s_list := remove_first u (s_list s) |}
+  end.
+
+Definition startup (conf : list (str * N)) (evs : list (nat * bool)) : sstate :=
+  fold_left (ev_step conf) evs {| s_opened := []; s_failed := []; s_list := conf |}.
+
+(* the interface list handed to UDPListener: list(self.interfaces); None = `if not self.interfaces: return`,
+   no responder is created *)
+Definition handed (conf : list cfg_iface) (evs : list (nat * bool)) : option (list (str * N)) :=
+  match s_opened (startup (map normalise conf) evs) with
+  | [] => None
+  | l => Some l
+  end.
